@@ -248,6 +248,12 @@ namespace ratio
             throw execution_exception();
         case Undefined: // we enforce the xi variable..
             slv.take_decision(xi);
+            if (slv.get_sat_core().value(xi) == True)
+            { // enforcing the xi variable has just propagated the execution bounds (delays, freezes): the plan might have to be repaired..
+                if (!slv.solve())
+                    throw execution_exception();
+                return; // the timelines have already been rebuilt by the nested notification..
+            }
             break;
         }
         switch (slv.get_sat_core().value(xi))
